@@ -128,6 +128,7 @@ func checkC12(r *Run) propMeta {
 	checkDeltaReaders(r)
 	// ---- R6 clone
 	checkPropertiesClone(r, gp)
+	checkKindsNoParamAlias(r, gp)
 	r.Floor("C12-R1-effect-summary", 5)
 	r.Floor("C12-R3-abstract-state", 2)
 	r.Floor("C12-R5-delta-readers", 6)
@@ -855,5 +856,75 @@ func checkPropertiesClone(r *Run, gp *packages.Package) {
 		} else {
 			r.Fail("C12-R6-clone", "Properties.Clone:"+n, fd.Pos(), "Clone does not allocate a fresh %s map: the clone shares it with the original", n)
 		}
+	}
+}
+
+// checkKindsNoParamAlias (R6): the tracking slices of two entities must stay disjoint.  Node.Merge feeds one node's
+// AddedKinds/DeletedKinds to the other's through Kinds.Add / Concatenate; graph.Kinds.Remove edits in place.  A
+// Kinds-returning method that returns one of its slice parameters (even only on a fast path) makes the receiver's
+// field share the argument's backing array, so a later edit of one entity rewrites the other's delta.
+func checkKindsNoParamAlias(r *Run, gp *packages.Package) {
+	info := gp.TypesInfo
+	n := 0
+	for _, f := range gp.Syntax {
+		for _, d := range f.Decls {
+			fd, ok := d.(*ast.FuncDecl)
+			if !ok || fd.Body == nil || fd.Recv == nil || recvTypeName(fd.Recv.List[0].Type) != "Kinds" || fd.Type.Results == nil {
+				continue
+			}
+			if len(fd.Type.Results.List) != 1 || namedName(info.TypeOf(fd.Type.Results.List[0].Type)) != "Kinds" {
+				continue
+			}
+			params := map[types.Object]bool{}
+			if fd.Type.Params != nil {
+				for _, pl := range fd.Type.Params.List {
+					for _, nm := range pl.Names {
+						if obj := info.Defs[nm]; obj != nil {
+							if _, isSlice := obj.Type().Underlying().(*types.Slice); isSlice {
+								params[obj] = true
+							}
+						}
+					}
+				}
+			}
+			if len(params) == 0 {
+				continue
+			}
+			n++
+			bad := token.NoPos
+			ast.Inspect(fd.Body, func(x ast.Node) bool {
+				ret, ok := x.(*ast.ReturnStmt)
+				if !ok || len(ret.Results) != 1 || bad != token.NoPos {
+					return true
+				}
+				e := ast.Unparen(ret.Results[0])
+				for {
+					switch t := e.(type) {
+					case *ast.SliceExpr:
+						e = ast.Unparen(t.X)
+						continue
+					case *ast.CallExpr:
+						if tv, ok := info.Types[t.Fun]; ok && tv.IsType() && len(t.Args) == 1 {
+							e = ast.Unparen(t.Args[0]) // conversion Kinds(x)
+							continue
+						}
+					}
+					break
+				}
+				if id, ok := e.(*ast.Ident); ok && params[info.Uses[id]] {
+					bad = ret.Pos()
+				}
+				return true
+			})
+			construct := "Kinds." + fd.Name.Name
+			if bad != token.NoPos {
+				r.Fail("C12-R6-kinds-alias", construct, bad, "Kinds.%s returns its slice argument: after Node.Merge the receiver's Kinds/AddedKinds/DeletedKinds share a backing array with the merged node's slice, and Kinds.Remove edits in place — a later edit of either node rewrites the other node's recorded delta", fd.Name.Name)
+			} else {
+				r.Pass("C12-R6-kinds-alias", construct, fd.Pos(), "never returns a slice parameter")
+			}
+		}
+	}
+	if n == 0 {
+		r.Undecide("C12-R6: no Kinds-returning method with a slice parameter found in package graph")
 	}
 }
